@@ -76,8 +76,11 @@ class Pipe:
                     rd.append((k, st))
         self.ev = ev
         self.writes = wr
-        self.reads = rd
         self.recv = [k for k, s in ev.get("RECV", [])]
+        # reads that can feed the chain: a reducer call is reachable before the next receive
+        red = {k for k, s in ev.get("REDUCE", [])}
+        self.all_reads = rd
+        self.reads = [(k, s) for (k, s) in rd if red & G.reach_after([k], avoid=self.recv)] if red else rd
 
     def nodes(self, lab):
         if lab == "WRITE_STATE":
